@@ -146,6 +146,8 @@ func PerturbHost(r *hx.Rand, h string) string {
 		if i := strings.IndexByte(h, '.'); i >= 0 {
 			return h[i:]
 		}
+	case 19: // a Host containing '/' (never a hostname): must fall back to the path-only routes
+		return hx.Pick(r, []string{"/x", "/a", h + "/a", "a/b", "/", h + "/"})
 	case 10:
 		return h + ":"
 	case 11:
